@@ -88,7 +88,7 @@ def stiffness(rng, cls, scale=1.0):
 
 # ----------------------------------------------------------------------------
 # m / n axis assignments
-MN_CLASSES = ['xy', 'yz', 'zx', 'yx', 'zy', 'xz', 'signed-axes', 'oblique', 'oblique-b']
+MN_CLASSES = ['xy', 'yz', 'zx', 'yx', 'zy', 'xz', 'signed-axes', 'oblique', 'oblique-b', 'letter-array']
 _AX = dict(x=X, y=Y, z=Z)
 
 
@@ -97,6 +97,11 @@ def mn_axes(rng, cls):
     unit vectors it denotes."""
     if len(cls) == 2 and cls[0] in 'xyz':
         return cls[0], cls[1], _AX[cls[0]].copy(), _AX[cls[1]].copy()
+    if cls == 'letter-array':                   # one axis by letter, the other as an array
+        a, b = [('x', 'y'), ('y', 'z'), ('z', 'x'), ('y', 'x'), ('z', 'y'), ('x', 'z')][int(rng.integers(0, 6))]
+        if rng.random() < 0.5:
+            return a, _AX[b].copy(), _AX[a].copy(), _AX[b].copy()
+        return _AX[a].tolist(), b, _AX[a].copy(), _AX[b].copy()
     if cls == 'signed-axes':
         perm = list(itertools.permutations(range(3)))[int(rng.integers(0, 6))]
         sm, sn = rng.choice([-1.0, 1.0], 2)
